@@ -20,7 +20,8 @@ EXPLANATION = (
     "unreachable: write-once names (C09.R1) and one commit point per attempt (C01.R5)."
     " Also: (R5) a failing pointer read never falls back to 'the highest version on disk'; (R6) read-path methods never store to the handle (no memo); (R7) one commit point per attempt."
     ' (R8) ambiguity classification of the pointer write (shared with C04.R1): a write that may have landed is never cleaned up as a clean failure, so reads through one handle cannot move backwards.'
-    ' (R9) version / metadata resolution is stateless (shared with C10.R7): reads never answer from a cached metadata version.')
+    ' (R9) version / metadata resolution is stateless (shared with C10.R7): reads never answer from a cached metadata version.'
+    " (R12) recovery orders versions as integers (C10.R11); (R13) the pointer publishes the bare, parseable name of the version just written (C10.R15); (R14) the snapshot's file list is complete: skips only for empty entries / true duplicates keyed by the path (C14.R3). R6 also bans memoising decorators.")
 NOT_DECIDED = "monotonic reads across schedules; atomicity of os.replace / PUT; snapshot equality at run time"
 
 REFRESH = "datashard.metadata_manager.MetadataManager.refresh"
@@ -56,6 +57,17 @@ def check(ctx: Ctx) -> None:
     ctx.shared(c20_r2, "C20.R2", "C02.R10", "only 404 / NoSuchKey mean absent")
     # a retried conditional pointer PUT reports a conflict for a write that landed: the version readers already saw is deleted
     ctx.shared(c20_r3, "C20.R3", "C02.R11", "the conditional pointer PUT is never retried")
+    # a reader that lost the pointer must resolve the LATEST committed version (numeric order), or it observes an older snapshot and moves backwards
+    from .c10 import r11 as c10_r11
+    c10_r11(ctx, "C02.R12")
+    # a pointer the parser cannot read sends every reader to "highest version on disk" - during a commit that is the writer's
+    # not-yet-committed file: what the committers publish must be the bare, parseable name of the version just written
+    from .c10 import pointer_publishes_fresh_version
+    pointer_publishes_fresh_version(ctx, "C02.R13")
+    # a reader returns the rows of EVERY file of the one snapshot it resolved: nothing is skipped except an empty entry or a
+    # true duplicate of the same path
+    from .c14 import r3 as c14_r3
+    ctx.shared(c14_r3, "C14.R3", "C02.R14", "the snapshot's file list is complete: skips only for empty entries / true duplicates")
 
 
 def r6(ctx: Ctx) -> None:
@@ -73,6 +85,16 @@ def r6(ctx: Ctx) -> None:
             continue
         for n, what in state_writes(ctx, m):
             bad.append(f"{m.file}:{n.lineno} {name}: {what} in `{n.text[:60]}`")
+    # memoising decorators are state too (and compare arguments with ==: True == 1 == 1.0 share one cache slot)
+    memo = []
+    for f_ in sorted(ctx.prog.functions.values(), key=lambda x: x.qname):
+        for d_ in f_.decorators:
+            if d_.split(".")[-1] in ("lru_cache", "cache", "cached_property", "memoize", "memoized"):
+                memo.append(f"{f_.file}:{f_.lineno} @{d_} on {f_.qname.split('datashard.')[-1]}")
+    ctx.ob("C02.R6", table.methods["row_count"], "no memoising decorator in the package", None, not memo,
+           "nothing is answered from a remembered result" if not memo else
+           "a memo returns what an EQUAL earlier argument produced (True / 1 / 1.0 are equal) and outlives what it was computed "
+           "from", witness=memo[:6] or None, text="memo")
     ctx.ob("C02.R6", table.methods["row_count"], "no read-path method mutates the Table handle", None, not bad,
            "every read resolves the pointer afresh; a per-handle cache keyed by anything but the resolved metadata file itself "
            "(e.g. last_sequence_number, which a snapshot deletion does not bump) returns a snapshot that is no longer current",
